@@ -111,10 +111,10 @@ def monitor_dt_value(ctx, d: datetime, origin: str) -> None:
 
 def section(ctx) -> None:
     from pymap.parsing.specials import Flag, DateTime
-    from .C18_strings import B, impl_parse, sweep, small_strings, mutate, INTERESTING
+    from .C18_strings import B, thin, impl_parse, sweep, small_strings, mutate, INTERESTING
     rng = ctx.rng
     quick = ctx.quick
-    SH = dict(shard=600)
+    SH = dict(shard=1500)
     vals_ = INTERESTING if quick else None
 
     # ------------------------------------------------------------------ Flag
@@ -122,7 +122,7 @@ def section(ctx) -> None:
              b'\\*', b'\\\\x', b'NIL']
     stream = small_strings(b'\\aB ]', 4 if quick else 5) + sweep(bases[:4], vals_, not quick) + bases \
         + [mutate(rng, rng.choice(bases), b'\\ aZz$)]') for _ in range(ctx.scale(400, 6000))]
-    stream = list(dict.fromkeys(stream))
+    stream = thin(ctx, stream, 1500)
     cases, values = [], {}
     for buf in stream:
         r = impl_parse(Flag, buf)
@@ -166,7 +166,7 @@ def section(ctx) -> None:
         + [b'"' + gen_dt_text(rng) + b'"' + rng.choice([b'', b' x', b')']) for _ in range(ctx.scale(800, 30000))] \
         + [mutate(rng, b'"' + gen_dt_text(rng) + b'"', b'0123456789:+-. ZJanFebMar"\\\t') for _ in range(ctx.scale(300, 10000))] \
         + [bytes(DateTime(gen_datetime(rng))) + rng.choice([b'', b' x']) for _ in range(ctx.scale(300, 5000))]
-    stream = list(dict.fromkeys(stream))
+    stream = thin(ctx, stream, 2500)
     cases = []
     nparsed = 0
     for buf in stream:
@@ -208,7 +208,7 @@ def section(ctx) -> None:
                     dts.append(datetime(y, m, d, 23, 59, 59, tzinfo=timezone(timedelta(minutes=-(y % 1440)))))
                 except ValueError:
                     pass
-    dts += [gen_datetime(rng) for _ in range(ctx.scale(500, 15000))]
+    dts += [gen_datetime(rng) for _ in range(ctx.scale(500, 4000))]
     cases = []
     for d in dts:
         ctx.count(('dtprint', fields(d)))
